@@ -3,6 +3,7 @@ import ACModel.Driver.Discretizer
 import ACModel.Driver.Carve
 import ACModel.Driver.BaseDisc
 import ACModel.Driver.Chained
+import ACModel.Driver.Select
 /-
   acdriver: JSON-lines driver around the executable model and the specification predicates.
   One request per line on stdin, one response per line on stdout.
@@ -23,6 +24,7 @@ def dispatch (j : Json) : R Json := do
   | "ordinal.merge" => DriverBase.ordinalMerge j
   | "kernels" => DriverBase.kernels j
   | "chained.fit" => DriverChained.chainedFit j
+  | "select" => DriverSelect.select j
   | "disc.labels" => DriverDisc.labels j
   | "disc.transform" => DriverDisc.transform j
   | "disc.reload" => DriverDisc.reload j
